@@ -372,3 +372,12 @@ func validClaims(kind int, r *rng) ctoks {
 	}
 	return c
 }
+
+// raw contents of a SwComponents container (no validation)
+func rawValues(s *psatoken.SwComponents[*psatoken.SwComponent]) []*psatoken.SwComponent {
+	f := reflect.ValueOf(s).Elem().FieldByName("values")
+	if !f.IsValid() {
+		panic("SwComponents has no field 'values' any more: harness needs updating")
+	}
+	return reflect.NewAt(f.Type(), unsafe.Pointer(f.UnsafeAddr())).Elem().Interface().([]*psatoken.SwComponent)
+}
